@@ -307,6 +307,45 @@ def body_dist_prologue(env):
         env.eq('first guess sums to the total flow', tot, m_total)
 
 
+def body_dist_prologue_prev(env):
+    """Code before the loop in a later iteration of the optimiser: the previous sweep's results (one block of rows per
+    time step, every block listing every assembly with its flow) give the total flow; rescaled by the ratio of the
+    achieved to the requested bulk temperature rise.  The corrective ratio is an arbitrary positive stub."""
+    labels, types = PARTITIONS[env.params['part']]
+    T = env.params['timesteps']
+    with env.patch(MODS):
+        s, N, ng = _dist_self(env, labels, types, False)
+        s.coolant = _Cool(1000.0)
+        tb = env.real('bulk_coolant_temp', lo=200, hi=5000)
+        env.assume(tb - s.t_in >= 1)
+        s.orifice_input['bulk_coolant_temp'] = tb
+        tp = env.real('previous_bulk_outlet_temp', lo=200, hi=5000)
+        env.assume(tp - s.t_in >= 1)
+        flows = [env.pos('flow_prev%d' % i, hi=1e4) for i in range(N)]
+        R = np.empty((T * N, 6), dtype=object)
+        for t in range(T):
+            for i in range(N):
+                R[t * N + i] = [float(t), float(i), 0.0, flows[i], 0.0, 800.0 + i]
+        if env.mode == 'replay':
+            R = R.astype(float)
+        P = np.zeros((N, 2))
+        P[:, 0] = np.arange(N)
+        P[:, 1] = 1.0e6
+        s._power = P
+        nt = max(types) + 1
+        s._parametric['data'] = [np.array([[1.0e-6 * (k + 1), 0.0, 1.0 * (k + 1), 0.01 * (k + 1), 700.0 + 10 * k] for k in range(4)])[::-1].copy()
+                                 for t in range(nt)]
+        s._calc_corrective_ratio = lambda xy, res_prev: np.ones(N)
+        env.stub('Orificing._calc_corrective_ratio returns ones (the total flow does not depend on it)')
+        pre = loops.before_loop(om.Orificing.distribute, 0)
+        L = pre({'self': s, 'res_prev': R, 't_out_prev': tp})
+        tot = flows[0]
+        for i in range(1, N):
+            tot = tot + flows[i]
+        env.eq('total flow = previous total flow (one time step) rescaled by the bulk temperature rises', L['m_total'] * (tb - s.t_in),
+               tot * (tp - s.t_in), tol=1e-9, key='total_flow_wrong_with_previous_sweep')
+
+
 def body_dist_run(env):
     """The whole real distribute() (first iteration of the optimiser: no previous sweep),
     response estimator stubbed with arbitrary values; bounded by the fork-depth budget."""
@@ -388,6 +427,9 @@ def instances(tier):
                                  body=body_dist_epilogue, params={'part': p, 'lim': lim, 'capped': capped},
                                  max_paths=4000, max_depth=80))
         inst.append(dict(label='dist-prologue[part=%s]' % p, body=body_dist_prologue, params={'part': p}))
+        for T in (1, 2, 3):
+            inst.append(dict(label='dist-prologue-previous-sweep[part=%s,timesteps=%d]' % (p, T), body=body_dist_prologue_prev,
+                             params={'part': p, 'timesteps': T}))
         for lim in (False, True):
             inst.append(dict(label='dist-run[part=%s,limit=%s]' % (p, lim), body=body_dist_run,
                              params={'part': p, 'lim': lim}, max_paths=100000, max_depth=14 if tier == 'quick' else 20))
